@@ -13,9 +13,11 @@ TURN = {'cond': threading.Condition(), 'schedule': [], 'pos': 0, 'active': False
 def to_tree(o, path=()):
     """context / definition value -> tree JSON of c12_lang (value only; a cycle -> {'obj': 'cycle'})."""
     if isinstance(o, bool):
-        return {'obj': 'bool'}
+        return c12_lang.TRUE_CODE if o else c12_lang.FALSE_CODE
     if isinstance(o, int):
         return o
+    if isinstance(o, str):
+        return c12_lang.enc(o)
     if id(o) in path:
         return {'obj': 'cycle'}
     if isinstance(o, list):
